@@ -524,12 +524,13 @@ theorem measure_bcin (cfg : Cfg) (s s' : State) (c to : Nat) (tokens : List (Nat
 theorem measure_bcinfail (cfg : Cfg) (s s' : State) (c r : Nat) (tokens : List (Nat × Nat)) (g' : Nat) (hc : c < 3)
     (h : stepCore cfg s (.bcinfail c r tokens) = .ok s') : measure s' g' = measure s g' := by
   simp only [stepCore] at h; exc
-  cases h1 : tokensFlow cfg c tokens (fun k g n => bridgeTokenToBaseCoin k g c badContract n) with
+  cases h1 : tokensFlow cfg c tokens (fun k g n =>
+      bridgeTokenToBaseCoin k g c badContract n ++ [.send (.base g) badContract (U r) n]) with
   | error e => simp [h1] at h
   | ok fl1 =>
     simp only [h1] at h
     have hd1 := tokensFlow_delta cfg c g' _ 1
-      (by intro k g n; rw [held_depositBad g' k g c n hc]; split <;> simp) tokens fl1 h1
+      (by intro k g n; rw [held_depositBadRefund g' k g c r n hc]; split <;> simp) tokens fl1 h1
     cases h2 : tokensFlow cfg c tokens (fun k g n => baseCoinToBridgeToken k g c (U r) n) with
     | error e => simp [h2] at h
     | ok fl2 =>
@@ -569,17 +570,18 @@ theorem measure_converts (cfg : Cfg) (s s' : State) (g' : Nat) (op : Op) (hop : 
     | none => simp [hk] at h
     | some k =>
       simp only [hk] at h
-      by_cases h1 : k = .fx ∨ src = dst
+      generalize hdst : (if okDen cfg g dst = true then dst else Den.base) = dst' at h
+      by_cases h1 : k = .fx ∨ src = dst'
       · simp [h1] at h
       · simp only [h1, ↓reduceIte] at h
-        cases hb : (okDen cfg g src && okDen cfg g dst)
+        cases hb : (okDen cfg g src && okDen cfg g dst')
         · simp [hb] at h
         · simp only [hb, Bool.not_true, Bool.false_eq_true, ↓reduceIte] at h
           simp only [Bool.and_eq_true] at hb
           have hden : ∀ d : Den, okDen cfg g d = true → ∀ c, d = .chain c → c < 3 := by
             intro d hd c hdc; subst hdc; simp [okDen, nChains] at hd; exact of_decide_eq_true hd.1
           refine measure_run s s' _ g' h ?_
-          rw [flowDelta_append, held_convertDenom g' k g u n src dst (hden src hb.1) (hden dst hb.2)]
+          rw [flowDelta_append, held_convertDenom g' k g u n src dst' (hden src hb.1) (hden dst' hb.2)]
           split
           · simp [Obs.flowDelta]
           · rw [held_sendPair]; rfl
